@@ -26,12 +26,14 @@ Definition parse_obs (o : option (Z * msg)) :=
                          m_hoff m, h_kv (m_hdrs m), m_abandon m)
   end.
 
-(* NOT PROVED.  parse_fragmentation_independent: by append_bytes_split_independent the
+(* NOT PROVED in this grammatical form (the theorem parse_fragmentation_independent of
+   C13_Properties.v proves it for every head accepted by the executable check head_ok; what is
+   missing here is only `wf_head -> head_ok`).  By append_bytes_split_independent the
    result of receive_header is parse_whole applied to the prefix of the byte string that
    had arrived when the terminator became visible; for a well-formed head that result does
    not depend on how many bytes behind the terminator are in that prefix.  (For heads that
    are not well formed it does: parse_fragmentation_dependent_malformed_refuted.) *)
-Definition parse_fragmentation_independent : Prop :=
+Definition parse_fragmentation_independent_grammar : Prop :=
   forall (m : msg) (head tail1 tail2 : bytes),
     wf_head (m_is_req m) head -> m_status m = INIT ->
     zlen (head ++ tail1) < m_cap m -> zlen (head ++ tail2) < m_cap m ->
